@@ -25,8 +25,10 @@ PROPS = {
                     "the 2^31-1 iteration limit of ET mode is modelled as unbounded; LT readiness is the kernel's by assumption, so the "
                     "no-lost-edge / quiescence theorems carry content for ET and ONESHOT only; no liveness theorem composes progress, "
                     "finiteness and delivery into 'eventually delivered' (fairness of the kernel's reports would be the hypothesis); the "
-                    "model has one conn per engine (demultiplexing by descriptor is exercised by hlife with up to four conns) and UDP "
-                    "sessions only grow; the model admits spurious reports and does not model write interest, so 'readers go idle' is "
+                    "ReadPath model has one conn per engine and its UDP sessions only grow; session turnover by UDPReadTimeout is a "
+                    "separate logical-time model (UdpSess: c02_udp_active_session — an active remote keeps ONE session because every "
+                    "datagram renews the deadline), run by gatedrv in the timed UDP cases (real time, 300 ms timeout, gaps of 0.6 x "
+                    "timeout, one-sided: a close that comes late is not judged, an overslept wait ends the comparison); the model admits spurious reports and does not model write interest, so 'readers go idle' is "
                     "proved for the internal steps between reports and MEASURED (idle CPU in a 60 ms window, incl. after an immediate "
                     "DialAsync connect) on real sockets; NPoller only selects the poller; read-call counters on the simulated kernel; "
                     "the executor is not a model parameter: task steps interleave arbitrarily, assuming any IOExecute runs each submitted "
